@@ -32,7 +32,8 @@ META = dict(
     bounds=['3 reload targets; per task: 8 statuses (a: 4), held, runahead, '
             'queued bits, submit number 2, flows {1}/{1,2}; b atoms: 3 '
             'states each; x output bit on a; DB row for d@2: none / '
-            'succeeded in flow 1 / succeeded in flow 3'],
+            'succeeded in flow 1 / succeeded in flow 3; DB rows recording the '
+            'outputs behind b\'s existing atoms present or not'],
     stubs=['pri_dao.select_task_outputs (dictionary)', 'data_store_mgr',
            'workflow_db_mgr', 'xtrigger_mgr (real)'],
     assumptions=[],
@@ -61,7 +62,7 @@ def _target(ti):
 
 
 def _run(ti, sa, sb, sc, held_b, rh_b, q_b, held_c, sub_a, fl_b, ax, a1,
-         xdone, drow):
+         xdone, drow, a1_db=False):
     new_cfg = _target(ti)
     pool = fx.pool(A)
     dao = pool.workflow_db_mgr.pri_dao
@@ -92,6 +93,14 @@ def _run(ti, sa, sb, sc, held_b, rh_b, q_b, held_c, sub_a, fl_b, ax, a1,
         dao.task_outputs[('d', '2')] = {json.dumps(
             {'submitted': 'submitted', 'started': 'started',
              **({'succeeded': 'succeeded'} if ok else {})}): set(fl)}
+    if a1_db:
+        # the DB already records 1/a:succeeded (and 2/a:x) for flow 1 - e.g.
+        # the child was removed and respawned by another parent since
+        dao.task_outputs[('a', '1')] = {json.dumps(
+            {'submitted': 'submitted', 'started': 'started',
+             'succeeded': 'succeeded'}): {1}}
+        dao.task_outputs[('a', '2')] = {json.dumps(
+            {'submitted': 'submitted', 'started': 'started', 'x': 'xx'}): {1}}
     snap = {t.identity: (t.state.status, set(t.flow_nums), t.submit_num,
                          t.state.is_held, t.state.is_runahead,
                          dict(t.state.outputs._completed))
@@ -147,7 +156,7 @@ def _run(ti, sa, sb, sc, held_b, rh_b, q_b, held_c, sub_a, fl_b, ax, a1,
 
 def reload(ti: int, sa: int, sb: int, sc: int, held_b: bool, rh_b: bool,
            q_b: bool, held_c: bool, sub_a: int, fl_b: int, ax: int, a1: int,
-           xdone: bool, drow: int) -> bool:
+           xdone: bool, drow: int, a1_db: bool) -> bool:
     """
     pre: sl(ti=ti, sb=sb, drow=drow)
     pre: sub_a == 2
@@ -157,6 +166,7 @@ def reload(ti: int, sa: int, sb: int, sc: int, held_b: bool, rh_b: bool,
     pre: ti == 1 or drow == 0
     pre: sc in SLICE.get('scs', (0, 5)) and sa in SLICE.get('sas', (0, 2))
     pre: a1 <= SLICE.get('a1max', 1)
+    pre: SLICE.get('xd', False) or not xdone
     post: _
     """
     ti, sa, sb, sc = (fork_int(ti, 0, 2), fork_int(sa, 0, 3),
@@ -164,11 +174,11 @@ def reload(ti: int, sa: int, sb: int, sc: int, held_b: bool, rh_b: bool,
     sub_a, fl_b, ax, a1, drow = (fork_int(sub_a, 0, 2), fork_int(fl_b, 0, 1),
                                  fork_int(ax, 0, 2), fork_int(a1, 0, 2),
                                  fork_int(drow, 0, 3))
-    bits = [fork_bool(x) for x in (held_b, rh_b, q_b, held_c, xdone)]
-    held_b, rh_b, q_b, held_c, xdone = bits
+    bits = [fork_bool(x) for x in (held_b, rh_b, q_b, held_c, xdone, a1_db)]
+    held_b, rh_b, q_b, held_c, xdone, a1_db = bits
     with concrete():
         return _run(ti, sa, sb, sc, held_b, rh_b, q_b, held_c, sub_a, fl_b,
-                    ax, a1, xdone, drow)
+                    ax, a1, xdone, drow, a1_db)
 
 
 def OBLIGATIONS(tier):
@@ -184,7 +194,7 @@ def OBLIGATIONS(tier):
                     timeout=t, twin=(sb == 0 and drow == 0),
                     slice={'ti': ti, 'sb': sb, 'sas': sas, 'drow': drow,
                            'scs': (0, 5, 6) if big else (0, 5),
-                           'a1max': 2 if big else 1}))
+                           'a1max': 2 if big else 1, 'xd': big}))
     return obs
 
 
